@@ -34,13 +34,25 @@ Lemma api_passive e x s :
   passive x s /\ others (nd s) = others x /\ (rinv x -> rinv (nd s)).
 Proof. intros H0 [HB1 HB2]. split; [apply (rel0_passive e); auto | auto]. Qed.
 
-Lemma inv_gstep V c g gh st ev g' r :
-  static c -> NoDup V -> (forall v, In v V -> v < RO_BASE) ->
+(* the dump-file condition of a step: a tick that is to load the dump file finds nothing stored *)
+Definition tick_ok (c : conf) (g : gstate) (ev : event) : Prop :=
+  match ev with
+  | ETick n _ _ _ _ _ =>
+      forall x, aget n (nodes g) = Some x -> need_load x && file_dump c = true -> stored (sr x) = None
+  | _ => True
+  end.
+
+Lemma tick_ok_static c g ev : file_dump c = false -> tick_ok c g ev.
+Proof. intros Hf. destruct ev; cbn; auto. intros x _ H. rewrite Hf, andb_false_r in H. discriminate. Qed.
+
+(* static membership; with a dump file under the condition [tick_ok] *)
+Lemma inv_gstep_gen V c g gh st ev g' r :
+  dyn c = false -> tick_ok c g ev -> NoDup V -> (forall v, In v V -> v < RO_BASE) ->
   Inv V g gh st -> ev_ok V st ev = true ->
   gstep c g ev = Some (g', r) ->
   Inv V g' (ghost_step ev g r gh) (st_after st ev).
 Proof.
-  intros St ND HV I Hev Hstep.
+  intros St Tk ND HV I Hev Hstep.
   destruct ev as [n now rnd bud ord sl | a b now rnd ord | a b | a b k | a b | n cm cb | n cm cb | n cm cb
                  | n | n | n oth now rnd sv]; unfold gstep in Hstep; cbn [st_after].
   - (* ETick *)
@@ -48,7 +60,8 @@ Proof.
     injection Hstep as <- <-.
     set (e := mk_env c now rnd bud ord sl) in *.
     pose proof (I_node _ _ _ _ I n x Hx) as Hok. pose proof Hok as (Rx & _).
-    destruct (on_tick_relB e x St Rx) as [Eo Ry]. cbn in Eo. specialize (Ry Rx).
+    assert (Tp : tickp e x) by (exact (Tk x Hx)).
+    destruct (on_tick_relB e x St Tp Rx) as [Eo Ry]. cbn in Eo. specialize (Ry Rx).
     pose proof (on_tick_spec e x) as Sp.
     unfold ghost_step, self_grant. rewrite Hx.
     set (s := on_tick e x) in *. clearbody s.
@@ -181,6 +194,13 @@ Proof.
         -- intros _. cbn. auto.
       * right. intros Hin. specialize (HV n Hin). lia.
 Qed.
+
+Lemma inv_gstep V c g gh st ev g' r :
+  static c -> NoDup V -> (forall v, In v V -> v < RO_BASE) ->
+  Inv V g gh st -> ev_ok V st ev = true ->
+  gstep c g ev = Some (g', r) ->
+  Inv V g' (ghost_step ev g r gh) (st_after st ev).
+Proof. intros [Hd Hf]. apply inv_gstep_gen; [exact Hd|apply tick_ok_static; exact Hf]. Qed.
 
 Lemma inv_grun V c : static c -> NoDup V -> (forall v, In v V -> v < RO_BASE) ->
   forall evs g gh st g' gh',
